@@ -203,6 +203,8 @@ impl Law {
             Law::DiscreteUniform(a, b) => {
                 if a == b {
                     "discrete-uniform:equal-bounds"
+                } else if (b as i128 - a as i128) >= (1i128 << 53) {
+                    "discrete-uniform:span>=2^53"
                 } else {
                     "discrete-uniform:lower<upper"
                 }
@@ -479,6 +481,11 @@ fn base_grid() -> Vec<CaseSpec> {
     }
     for &(a, b) in &[(0.0, 1.0), (-1e3, 1e3), (5.0, 5.001), (-1e-3, 0.0), (2.5, 2.5), (0.0, 0.0)] {
         v.push(Uniform(a, b));
+    }
+    // very wide supports (any i64 bounds are valid parameters): a reduction of the raw 64-bit word
+    // that is not uniform over the span shows only there
+    for &(a, b) in &[(-3i64 << 60, (3i64 << 60) - 1), (0i64, 1i64 << 62), (i64::MIN / 2, i64::MAX / 2), (-(1i64 << 56), 5i64 << 59)] {
+        v.push(DiscreteUniform(a, b));
     }
     for &(a, b) in &[(0i64, 1i64), (-5, 5), (1, 6), (0, 999), (-1_000_000_000, 1_000_000_000), (3, 3), (-7, -7)] {
         v.push(DiscreteUniform(a, b));
